@@ -107,6 +107,12 @@ def shard_run(arg):
                 n = r.randint(1, 12)
                 names = [b"A", b"B", b"PATH", b"\xff\xfe", b"X Y", b"a.b"]
                 vals = [b"", b"x", b"y:z", b"\x00\xff", b" sp ", b"v" * 50, b"\n"]
+                if idx % 200 == 199:
+                    # large: hundreds of entries over many variables, long names and values
+                    n = r.randint(150, 400)
+                    names = names + [b"N%d" % i for i in range(r.randint(5, 120))] + [b"L" * r.choice([255, 256, 4096])]
+                    vals = vals + [bytes([r.randrange(1, 256)]) * r.choice([4095, 4096, 4097, 65536])]
+                    sh.count("large_envs")
                 d = {}
                 for _ in range(n):
                     scope = r.choice(SCOPES + ["process:worker"])
@@ -114,7 +120,7 @@ def shard_run(arg):
                 entries = [(s, b, nm, v) for (s, b, nm), v in d.items()]
                 perm = entries[:]
                 r.shuffle(perm)
-                starts = [{}, {r.choice(names): r.choice(vals)}, {nm: r.choice(vals) for nm in names}]
+                starts = [{}, {r.choice(names): r.choice(vals)}, {nm: r.choice(vals) for nm in names[:40]}]
                 queries = [(s, st) for s in QSCOPES + ["process:worker"] for st in starts]
                 check_case(mon, entries, perm, sh, queries)
                 # duplicate keys: last insert wins, on a copy with one key re-inserted
@@ -134,7 +140,7 @@ def run(tier, seed, work):
     res = vp.Result("C04", tier, seed, "exploration")
     maxk = 2 if tier == "quick" else 3
     envs = list(enum_envs(maxk))
-    nrand = 3000 if tier == "quick" else 20000
+    nrand = 3000 if tier == "quick" else 100000
     shards = [("enum", s, seed) for s in vp.split(envs, vp.NCPU * 4)]
     shards += [("rand", s, seed) for s in vp.split(range(nrand), vp.NCPU)]
     for d in vp.pmap(shard_run, shards):
